@@ -21,6 +21,7 @@ pub fn replay(beh: &Value) -> Value {
         "tblhist" => replay_tblhist(beh),
         "filter1" => replay_filter1(beh),
         "dist1" => replay_dist1(beh),
+        "refidx" => replay_refidx(beh),
         "idx" => replay_idx(beh),
         "dispatch" => replay_dispatch(beh),
         _ => json!({"ok": false, "kind": kind, "why": "unknown replay kind"}),
@@ -238,4 +239,45 @@ fn replay_dist1(beh: &Value) -> Value {
         }
     }
     verdict("dist1", true, "", Value::Null, Value::Null)
+}
+
+/// Reference index behaviour: {k, rc, contigs:[[bytes]], index:[[km,mid,pos,chrom,isrc]], repeats:[abs], coords:[[chrom,pos]]}
+/// through RefSka::new (index + repeat coordinates) and IdxCheck.
+fn replay_refidx(beh: &Value) -> Value {
+    use std::io::Write;
+    let dir = if std::path::Path::new("/dev/shm").is_dir() { "/dev/shm" } else { "/tmp" };
+    let path = format!("{}/skav-ref-{}-{:?}.fa", dir, std::process::id(), std::thread::current().id());
+    {
+        let mut f = std::fs::File::create(&path).expect("create ref fasta");
+        for (i, c) in beh["contigs"].as_array().unwrap().iter().enumerate() {
+            let bytes = crate::util::bytes_of(c);
+            writeln!(f, ">c{}", i).unwrap();
+            if !bytes.is_empty() {
+                f.write_all(&bytes).unwrap();
+                writeln!(f).unwrap();
+            }
+        }
+    }
+    let ev = ops::exec(&json!({"op": "ref", "w": 64, "k": beh["k"], "file": path, "rc": beh["rc"], "ambig_mask": false, "repeat_mask": true}));
+    let _ = std::fs::remove_file(&path);
+    if ev["panic"].as_str().unwrap_or("") != "" {
+        return verdict("refidx", false, "panic in RefSka::new", beh["index"].clone(), ev);
+    }
+    if ev["index"] != beh["index"] {
+        return verdict("refidx", false, "reference index differs", beh["index"].clone(), ev["index"].clone());
+    }
+    let mut got: Vec<u64> = ev["repeats"].as_array().unwrap().iter().map(|x| x.as_u64().unwrap()).collect();
+    let n = got.len();
+    got.sort();
+    got.dedup();
+    let want: Vec<u64> = beh["repeats"].as_array().unwrap().iter().map(|x| x.as_u64().unwrap()).collect();
+    if got != want || got.len() != n {
+        return verdict("refidx", false, "repeat-mask coordinates differ", json!(want), ev["repeats"].clone());
+    }
+    let lens: Vec<usize> = beh["contigs"].as_array().unwrap().iter().map(|c| c.as_array().unwrap().len()).collect();
+    let iv = ops::exec(&json!({"op": "idx", "lens": lens}));
+    if iv["panic"].as_str().unwrap_or("") != "" || iv["pairs"] != beh["coords"] {
+        return verdict("refidx", false, "IdxCheck coordinate map differs", beh["coords"].clone(), iv);
+    }
+    verdict("refidx", true, "", Value::Null, Value::Null)
 }
